@@ -284,7 +284,14 @@ type tok struct {
 	id string
 }
 
+type decoded struct {
+	cert *x509.Certificate
+	pub  crypto.PublicKey // of a private key blob
+}
+
 type namer struct {
+	blobs   map[[32]byte]decoded
+	chains  map[[32]byte]string         // (root, inter, key) already judged by chainProblem
 	pubs    map[string]crypto.PublicKey // raw id -> public key (every key ever seen in this case)
 	signers map[[32]byte]string         // certificate (hash of its DER) -> raw id of the key that signed it
 }
@@ -312,14 +319,28 @@ func decodeCert(pemBytes []byte) (*x509.Certificate, error) {
 	return x509.ParseCertificate(blk.Bytes)
 }
 
+func (n *namer) decode(v []byte) decoded {
+	h := sha256.Sum256(v)
+	if d, ok := n.blobs[h]; ok {
+		return d
+	}
+	var d decoded
+	if c, err := decodeCert(v); err == nil {
+		d.cert = c
+	} else if k, err := certmagic.PEMDecodePrivateKey(v); err == nil {
+		d.pub = k.Public()
+	}
+	n.blobs[h] = d
+	return d
+}
+
 // learnBlob records the public keys a stored value reveals.
 func (n *namer) learnBlob(v []byte) {
-	if c, err := decodeCert(v); err == nil {
-		n.learn(c.PublicKey)
-		return
-	}
-	if k, err := certmagic.PEMDecodePrivateKey(v); err == nil {
-		n.learn(k.Public())
+	d := n.decode(v)
+	if d.cert != nil {
+		n.learn(d.cert.PublicKey)
+	} else if d.pub != nil {
+		n.learn(d.pub)
 	}
 }
 
@@ -362,11 +383,12 @@ func (n *namer) certToks(c *x509.Certificate) []tok {
 }
 
 func (n *namer) blobToks(v []byte) []tok {
-	if c, err := decodeCert(v); err == nil {
-		return n.certToks(c)
+	d := n.decode(v)
+	if d.cert != nil {
+		return n.certToks(d.cert)
 	}
-	if k, err := certmagic.PEMDecodePrivateKey(v); err == nil {
-		return []tok{{s: "k"}, {id: n.learn(k.Public())}}
+	if d.pub != nil {
+		return []tok{{s: "k"}, {id: n.learn(d.pub)}}
 	}
 	return []tok{{s: "?"}}
 }
@@ -597,6 +619,26 @@ func chainProblem(r startResult) string {
 	return ""
 }
 
+// chainProblemMemo: the same (root, intermediate, key) triple is judged once per case.
+func (n *namer) chainProblemMemo(r startResult) string {
+	if r.root == nil || r.inter == nil || r.ikey == nil || r.rkey == nil {
+		return chainProblem(r)
+	}
+	h := sha256.New()
+	h.Write(r.root.Raw)
+	h.Write(r.inter.Raw)
+	h.Write([]byte(spkiID(r.ikey.Public())))
+	h.Write([]byte(spkiID(r.rkey.Public())))
+	var k [32]byte
+	copy(k[:], h.Sum(nil))
+	if p, ok := n.chains[k]; ok {
+		return p
+	}
+	p := chainProblem(r)
+	n.chains[k] = p
+	return p
+}
+
 func storeProblem(r startResult) string {
 	rc, _ := theStore.get(caKeys[0].key)
 	rk, _ := theStore.get(caKeys[1].key)
@@ -628,7 +670,8 @@ func runCA(line, hist string) core.Outcome {
 		return core.Outcome{Impl: "bad-op"}
 	}
 	theStore.reset()
-	nm := &namer{pubs: map[string]crypto.PublicKey{}, signers: map[[32]byte]string{}}
+	nm := &namer{pubs: map[string]crypto.PublicKey{}, signers: map[[32]byte]string{},
+		blobs: map[[32]byte]decoded{}, chains: map[[32]byte]string{}}
 	var o core.Outcome
 	var toks []tok
 	fail := func(class, what string) {
@@ -739,7 +782,7 @@ func runCA(line, hist string) core.Outcome {
 			// an uninterrupted start-up on whatever earlier (interrupted) start-ups left behind
 			switch r.kind {
 			case "ok":
-				if p := chainProblem(r); p != "" {
+				if p := nm.chainProblemMemo(r); p != "" {
 					fail("ca-inconsistent-chain-after-startup", fmt.Sprintf("start-up %d of %q succeeded but: %s", i+1, hist, p))
 				} else if p := storeProblem(r); p != "" {
 					fail("ca-store-incomplete-after-startup", fmt.Sprintf("start-up %d of %q succeeded but: %s", i+1, hist, p))
